@@ -297,7 +297,7 @@ fn new_engine() -> Engine {
     engine
 }
 
-fn build_world(nwl: usize, prog: &str) -> World {
+fn build_world(nwl: usize, nheads: usize, prog: &str) -> World {
     let mut runtime = WorldlineRuntime::new();
     let mut engine = new_engine();
     let mut wls = Vec::new();
@@ -316,6 +316,19 @@ fn build_world(nwl: usize, prog: &str) -> World {
                 true,
             ))
             .expect("register head");
+        // further writer heads on the same worldline (not default writers; reached through ExactHead targets): two heads
+        // with work in one SuperTick commit twice on the worldline in that pass
+        for h in 1..nheads {
+            runtime
+                .register_writer_head(WriterHead::with_routing(
+                    WriterHeadKey { worldline_id: id, head_id: make_head_id(&format!("h{h}")) },
+                    PlaybackMode::Play,
+                    InboxPolicy::AcceptAll,
+                    None,
+                    false,
+                ))
+                .expect("register extra head");
+        }
         wls.push(id);
         live.push(vec![base]);
     }
@@ -329,24 +342,44 @@ fn build_world(nwl: usize, prog: &str) -> World {
         }
         for intent in tick.split(',') {
             let (w, hexprog) = intent.split_once('.').expect("intent");
+            // "<w>" = default writer of worldline w, "<w>h<k>" = extra head k of worldline w
+            let (w, h) = match w.split_once('h') {
+                Some((w, h)) => (w, h.parse::<usize>().expect("head index")),
+                None => (w, 0),
+            };
             let w: usize = w.parse().expect("wl index");
-            if w >= nwl {
+            if w >= nwl || h >= nheads.max(1) {
                 continue;
             }
             let mut bytes = b"VF".to_vec();
             bytes.extend(unhex(hexprog));
-            let env = IngressEnvelope::local_intent(
-                IngressTarget::DefaultWriter { worldline_id: wls[w] },
-                make_intent_kind("vf/prog"),
-                bytes,
-            );
+            let target = if h == 0 {
+                IngressTarget::DefaultWriter { worldline_id: wls[w] }
+            } else {
+                IngressTarget::ExactHead { key: WriterHeadKey { worldline_id: wls[w], head_id: make_head_id(&format!("h{h}")) } }
+            };
+            let env = IngressEnvelope::local_intent(target, make_intent_kind("vf/prog"), bytes);
             let _ = runtime.ingest(env);
         }
         match SchedulerCoordinator::super_tick(&mut runtime, &mut provenance, &mut engine) {
             Ok(records) => {
-                for rec in records {
+                for (ri, rec) in records.iter().enumerate() {
                     let w = wls.iter().position(|x| *x == rec.head_key.worldline_id).expect("wl");
-                    let st = runtime.worldlines().get(&wls[w]).expect("frontier").state().clone();
+                    // the frontier holds the state after the LAST commit of this pass on the worldline; the state after an
+                    // earlier commit of the same pass (another head of the worldline committed later) is re-materialized
+                    // from the untampered history and anchored to the live step record's root below
+                    let later = records[ri + 1..].iter().any(|r| r.head_key.worldline_id == rec.head_key.worldline_id);
+                    let st = if later {
+                        match provenance.replay_worldline_state_at(wls[w], &live[w][0], wt(live[w].len() as u64)) {
+                            Ok(st) => st,
+                            Err(e) => {
+                                flags.push(format!("untampered-intermediate-commit-does-not-replay@{}:{}", live[w].len(), replay_err(&e)));
+                                runtime.worldlines().get(&wls[w]).expect("frontier").state().clone()
+                            }
+                        }
+                    } else {
+                        runtime.worldlines().get(&wls[w]).expect("frontier").state().clone()
+                    };
                     if st.state_root() != rec.state_root {
                         flags.push(format!("live-root-differs-from-step-record@{}", live[w].len()));
                     }
@@ -1201,7 +1234,8 @@ fn main() {
         let thorough = m.get("tier").map(|s| s == "thorough").unwrap_or(false);
         let only: Option<usize> = m.get("only").and_then(|s| s.parse().ok());
         let quiet = m.get("quiet").map(|s| s == "1").unwrap_or(false);
-        let world = build_world(nwl, &prog);
+        let nheads: usize = m.get("heads").and_then(|s| s.parse().ok()).unwrap_or(1);
+        let world = build_world(nwl, nheads, &prog);
         let mut flags: Vec<String> = world.flags.iter().filter(|f| !f.starts_with("NOTE")).cloned().collect();
         let mut info: BTreeMap<String, usize> = BTreeMap::new();
         let mut nalt = 0usize;
